@@ -1222,6 +1222,16 @@ def main2():
         report["kernels"][sp["fn"] + "(flow skeleton)"] = dict(info, file=sp["file"])
     except Unsupported as e:
         report["errors"].append(f"agent/agent.c:nice_agent_remove_stream: {e}")
+    try:
+        import extract_flow
+        sp = extract_flow.SPEC_GATHERDONE
+        fpath = os.path.join(REPO, sp["file"])
+        d = ast_of(fpath, sp["fn"])
+        txt, info = extract_flow.translate_simple(sp, d, open(fpath, "rb").read(), consts, Unsupported, REPO)
+        open(os.path.join(GEN, "GatheringDone.lean"), "w").write(txt)
+        report["kernels"][sp["fn"] + "(flow skeleton)"] = dict(info, file=sp["file"])
+    except Unsupported as e:
+        report["errors"].append(f"agent/agent.c:agent_gathering_done: {e}")
     out.append("end Nice.Gen\n")
     open(os.path.join(GEN, "Kernels.lean"), "w").write("\n".join(out))
     with open(os.path.join(GEN, "Tables.lean"), "w") as f:
